@@ -3,6 +3,7 @@ package sim
 import (
 	"bytes"
 	"fmt"
+	"github.com/xuperchain/xupercore/bcs/ledger/xledger/state/xmodel"
 	"math/big"
 	"strings"
 	"time"
@@ -517,6 +518,34 @@ func (r *txRun) doUnauthorised(f *TxForm) *Violation {
 			return nil
 		}
 		u := us[f.C%len(us)]
+		if f.A%2 == 1 {
+			// ... "justified" by a forged record of contract-performed inputs, with no contract request at
+			// all: nothing is re-executed that could reproduce the record
+			sp := &TxSpec{From: thief, Version: int32(f.Ver), Inputs: []UtxoRef{u}, Outs: []OutSpec{{To: thief.Addr, Amount: u.Amount}}, NoChange: true}
+			tx, err := BuildTx(sp)
+			if err != nil {
+				return nil
+			}
+			rec, err := xmodel.MarshalMessages(tx.TxInputs)
+			if err != nil {
+				return nil
+			}
+			tx.TxOutputsExt = []*pb.TxOutputExt{{Bucket: "$transient", Key: []byte("ContractUtxo.Inputs"), Value: rec}}
+			if err := SignTx(tx, thief, nil); err != nil {
+				return nil
+			}
+			r.rc.St.Probes["unauthorised-spend-tried"]++
+			r.rc.St.Probes["forged-contract-utxo-record-tried"]++
+			tw, err := n.Twin()
+			if err != nil {
+				panic(err)
+			}
+			defer tw.Drop()
+			if tw.Chain.SubmitTx(tw.BaseCtx(), CloneTx(tx)) == nil {
+				return r.viol("unauthorised-spend-admitted", "a spend of another address's output carrying a forged record of contract-performed inputs and no contract request was admitted: %s", descTx(tx))
+			}
+			return nil
+		}
 		return try("a spend of another address's output", &TxSpec{From: thief, Version: int32(f.Ver), Inputs: []UtxoRef{u}, Outs: []OutSpec{{To: thief.Addr, Amount: u.Amount}}, NoChange: true})
 	case 1: // threshold account, one of two 0.6-weight keys against a threshold of 1.0
 		if !r.ensureAccount() {
